@@ -392,7 +392,9 @@ class GenericPlainRegistry(Generic[QuantityT, UnitT], metaclass=RegistryMeta):
         try:
             self.__getattr__(item)
             return True
-        except UndefinedUnitError:
+        except (AttributeError, TypeError):
+            # UndefinedUnitError, names Python reserves (leading underscore) and
+            # spellings that cannot be a unit (a prefixed offset unit)
             return False
 
     def __dir__(self) -> list[str]:
